@@ -3,6 +3,7 @@ package main
 // C01 — bridge escrow conservation and all-or-nothing transfer lifecycle.
 
 import (
+	"go/types"
 	"sort"
 	"strings"
 
@@ -327,6 +328,7 @@ func sameSpill(a, b ssa.Value) bool {
 // ---- rules ---------------------------------------------------------------------
 
 func rulesC01(w *World, o *Out) {
+	foundFlagDiscipline(w, o, "C01.R1", "x/skyway/keeper")
 	fl := NewFlow(w)
 	o.Rule("C01.R1", "every function that (transitively) mutates pool / batch / id-counter / escrow state and can return an error after a mutation is an atomic wrapper (cache context committed only on success, all mutating callees run on the cached context), or every caller chain propagates its error up to a transaction boundary or an atomic wrapper; a chain that logs-and-continues is a violation")
 	o.Rule("C01.R2", "every bank call that moves the bridge escrow has a registered shape (lock, refund, burn, attested mint, forward of minted coins, governance one-off); other movers are violations")
@@ -1026,4 +1028,100 @@ func failureEdgeForwards(f *ssa.Function, send Site, pool []Site) (bool, string)
 		}
 	}
 	return false, "the error of the local send is never tested"
+}
+
+// foundFlagDiscipline: for calls in the given package whose results are (pointer, bool[, error]) -- a
+// value with a found flag -- every use of the pointer as an argument or a dereference is dominated by
+// found == true. A nil pointer handed on panics later; inside an atomic wrapper whose deferred commit
+// tests "err == nil" that panic commits the half-done work.
+func foundFlagDiscipline(w *World, o *Out, rule, pkgSuffix string) {
+	n := 0
+	for _, f := range w.ProdFuncs {
+		if !strings.HasSuffix(funcPkgPath(f), pkgSuffix) || isGeneratedFile(w, f) {
+			continue
+		}
+		for _, s := range CallsIn(f) {
+			call, ok := s.Instr.(*ssa.Call)
+			if !ok {
+				continue
+			}
+			tup, ok := call.Type().(*types.Tuple)
+			if !ok || tup.Len() < 2 {
+				continue
+			}
+			if _, isPtr := tup.At(0).Type().Underlying().(*types.Pointer); !isPtr {
+				continue
+			}
+			bi := -1
+			for i := 1; i < tup.Len(); i++ {
+				if b, isB := tup.At(i).Type().Underlying().(*types.Basic); isB && b.Kind() == types.Bool {
+					bi = i
+				}
+			}
+			if bi < 0 || !strings.HasPrefix(s.Callee.Pkg, modPath) {
+				continue
+			}
+			var val, found *ssa.Extract
+			for _, r := range *call.Referrers() {
+				if ex, isEx := r.(*ssa.Extract); isEx {
+					if ex.Index == 0 {
+						val = ex
+					} else if ex.Index == bi {
+						found = ex
+					}
+				}
+			}
+			if val == nil {
+				continue
+			}
+			n++
+			// uses of val (through its spill slot if any)
+			var uses []ssa.Instruction
+			collect := func(v ssa.Value) {
+				for _, r := range *v.Referrers() {
+					switch x := r.(type) {
+					case ssa.CallInstruction:
+						uses = append(uses, x)
+					case *ssa.FieldAddr, *ssa.UnOp:
+						uses = append(uses, x.(ssa.Instruction))
+					}
+				}
+			}
+			collect(val)
+			for _, r := range *val.Referrers() {
+				if st, isSt := r.(*ssa.Store); isSt && st.Val == ssa.Value(val) {
+					if al, isAl := st.Addr.(*ssa.Alloc); isAl {
+						for _, r2 := range *al.Referrers() {
+							if ld, isLd := r2.(*ssa.UnOp); isLd {
+								collect(ld)
+							}
+						}
+					}
+				}
+			}
+			bad := ""
+			for _, u := range uses {
+				held := false
+				for _, fa := range FactsAt(u) {
+					switch fa.Kind {
+					case FTrue:
+						if found != nil && canon(fa.V) == ssa.Value(found) {
+							held = true
+						}
+					case FNonNil:
+						if canon(fa.V) == ssa.Value(val) {
+							held = true
+						}
+					}
+				}
+				if !held {
+					bad = w.Pos(u.Pos())
+					break
+				}
+			}
+			key := w.FuncKey(TopFunc(f)) + "|result of " + s.Callee.String() + " used only when found"
+			o.Check(rule, key, bad == "", w.Pos(call.Pos()), "the pointer returned together with a found flag is used at "+bad+" on a path where found may be false (nil pointer): the later dereference panics instead of failing cleanly")
+		}
+	}
+	o.Note(rule, "found-flag call sites in "+pkgSuffix, "-", itoa(n)+" examined")
 }
